@@ -1,4 +1,4 @@
-import Marwood.Lemmas.CompileCorrect2Lambda
+import Marwood.Lemmas.CompileCorrect2Enter
 /-!
 # T01.3 stage 2 — operand lists, bodies, and the call of a closure: `ENTER`, the body, `RET`
 -/
@@ -9,17 +9,6 @@ open Marwood.Spec.Eval (Val Prim Cell Env evalN evalStep applyStep evalArgs prop
 
 variable {H : Type} {ops : HeapOps H} {D : RepData2 ops}
 
-theorem All2.get {α β : Type} {R : α → β → Prop} : ∀ {l : List α} {l' : List β}, All2 R l l' →
-    ∀ (i : Nat) (a : α), l[i]? = some a → ∃ b, l'[i]? = some b ∧ R a b
-  | _, _, .nil, i, a, h => by simp at h
-  | _, _, .cons hab t, i, a, h => by
-    cases i with
-    | zero => simp at h; subst h; exact ⟨_, by simp, hab⟩
-    | succ j =>
-      simp at h
-      obtain ⟨b, hb, hr⟩ := All2.get t j a h
-      exact ⟨b, by simpa using hb, hr⟩
-
 theorem ArgsRun2.codeAfter {W : World} {s s' : MSt H} {len : Nat} {σ σ' : SSt} {ws : List Val} {vs : List VCell}
     (r : ArgsRun2 D W s len σ σ' ws vs s') {em : List (Text × Source)} {base : Nat} {code : List BC}
     (hc : CodeAt2 D em s.heap σ.store s.ipL base code) : CodeAt2 D em s'.heap σ'.store s'.ipL base code := by
@@ -28,7 +17,7 @@ theorem ArgsRun2.codeAfter {W : World} {s s' : MSt H} {len : Nat} {σ σ' : SSt}
 /-! ## operand lists -/
 
 theorem args2_ok (L : Laws2 D) {n : Nat} (ih : ExprOK2 D n) :
-    ∀ (es : List Datum) f cst c base rest cst' code k (ρ : Env), F2L f c (bound ρ) rest → CtxOK c →
+    ∀ (es : List Datum) f cst c base rest cst' code k (ρ : Env), F2L D.setG f c (bound ρ) rest → CtxOK c →
     compileArgs f cst c base rest = .ok (cst', code, k) → cst'.lambdas <+: D.final →
     properList rest = some es →
     ∀ (σ : SSt) ws (σ' : SSt), evalArgs (evalN n) ρ es σ = .ok ws σ' →
@@ -58,8 +47,8 @@ theorem args2_ok (L : Laws2 D) {n : Nat} (ih : ExprOK2 D n) :
       cases hes
       obtain ⟨v, σ1, ws', hea, hed, rfl⟩ := evalArgs_cons_inv hev
       subst hip
-      have hpre1 : cst1.lambdas <+: D.final := ((monoOK _).2.1 _ _ _ _ _ _ _ _ hfd hcd).trans hpre
-      obtain ⟨W1, s1, hw1, r1⟩ := ih _ _ _ _ _ _ _ _ _ hfa hcx hca hpre1 σ v σ1 hea W s hc.left.left rfl hi her hw
+      have hpre1 : cst1.lambdas <+: D.final := ((monoOK _ _).2.1 _ _ _ _ _ _ _ _ hfd hcd).trans hpre
+      obtain ⟨W1, s1, hw1, r1⟩ := ih _ _ _ _ _ _ _ _ hfa hcx hca hpre1 σ v σ1 hea W s hc.left.left rfl hi her hw
       have hcP1 : CodeAt2 D c.envmap s1.heap σ1.store s1.ipL s1.ipO [BC.op .pushAcc] :=
         (r1.codeAfter hc.left.right).cast r1.ipO.symm
       have hp := step_pushAcc hcP1.1 (hcP1.op 0 rfl)
@@ -82,14 +71,15 @@ theorem args2_ok (L : Laws2 D) {n : Nat} (ih : ExprOK2 D n) :
 
 /-! ## bodies -/
 
-theorem body2_ok (L : Laws2 D) {n : Nat} (ih : ExprOK2 D n) :
-    ∀ (body : List Datum) f cst c base bodyD cst' code (ρ : Env) (d : Bool), F2B f c (bound ρ) bodyD → CtxOK c →
+theorem body2_ok (L : Laws2 D) {n : Nat} (ih : ExprOK2 D n) (iht : ExprOKT D n) :
+    ∀ (body : List Datum) f cst c base bodyD cst' code (ρ : Env) (d : Bool), F2B D.setG f c (bound ρ) bodyD → CtxOK c →
     compileBody f cst c base bodyD = .ok (cst', code) → cst'.lambdas <+: D.final →
     properList bodyD = some body → (∀ e ∈ body, Spec.Eval.isDefine e = false) →
     ∀ (σ : SSt) w (σ' : SSt), Spec.Eval.evalBodyForms (evalN n) ρ d body σ = .ok w σ' →
-    ∀ (W : World) (s : MSt H), CodeAt2 D c.envmap s.heap σ.store s.ipL base code → s.ipO = base →
-      Inv2 D W s.heap σ → EnvRep ops W s.heap c s.ep ρ → SWF s.stack →
-    ∃ W' s', W.le W' ∧ Run2 D W' s code.length σ σ' w s' := by
+    ∀ (W : World) (s : MSt H) (fr : Frame), CodeAt2 D c.envmap s.heap σ.store s.ipL base code → s.ipO = base →
+      Inv2 D W s.heap σ → EnvRep ops W s.heap c s.ep ρ → SWF s.stack → FrameAt s.stack s.bp fr →
+    ∃ W' s', W.le W' ∧ Out2 D W' s code.length σ σ' w true fr s' := by
+  have _ := L
   intro body
   induction body with
   | nil =>
@@ -100,7 +90,7 @@ theorem body2_ok (L : Laws2 D) {n : Nat} (ih : ExprOK2 D n) :
       obtain ⟨es', _, h⟩ := properList_pair_inv hpl
       cases h
   | cons e0 es ihes =>
-    intro f cst c base bodyD cst' code ρ d hfb hcx hcomp hpre hpl hnd σ w σ' hev W s hc hip hi her hw
+    intro f cst c base bodyD cst' code ρ d hfb hcx hcomp hpre hpl hnd σ w σ' hev W s fr hc hip hi her hw hfr
     have hd0 : Spec.Eval.isDefine e0 = false := hnd e0 List.mem_cons_self
     cases hfb with
     | last x hfx =>
@@ -120,8 +110,8 @@ theorem body2_ok (L : Laws2 D) {n : Nat} (ih : ExprOK2 D n) :
       obtain ⟨rfl, rfl⟩ := hnil
       have c1' : compileExpr f0 cst c base true e0 = .ok (cst', code1) := c1
       rw [List.append_nil] at hc ⊢
-      exact ih _ _ _ _ _ _ _ _ _ hfx hcx c1' hpre σ w σ' hev W s hc hip hi her hw
-    | cons x y rest hfx hfr =>
+      exact iht _ _ _ _ _ _ _ _ _ hfx hcx c1' hpre σ w σ' hev W s fr hc hip hi her hw (fun _ => hfr)
+    | cons x y rest hfx hfr' =>
       obtain ⟨es', hpl', hes⟩ := properList_pair_inv hpl
       cases hes
       obtain ⟨es'', hpl'', rfl⟩ := properList_pair_inv hpl'
@@ -130,204 +120,27 @@ theorem body2_ok (L : Laws2 D) {n : Nat} (ih : ExprOK2 D n) :
       obtain ⟨cst1, code1, code2, c1, c2, rfl⟩ := compileBody_pair_inv hcomp
       have c1' : compileExpr _ cst c base false e0 = .ok (cst1, code1) := c1
       subst hip
-      have hpre1 : cst1.lambdas <+: D.final := ((monoOK _).2.2 _ _ _ _ _ _ _ hfr c2).trans hpre
-      obtain ⟨W1, s1, hw1, r1⟩ := ih _ _ _ _ _ _ _ _ _ hfx hcx c1' hpre1 σ v σ1 he1 W s hc.left rfl hi her hw
+      have hpre1 : cst1.lambdas <+: D.final := ((monoOK _ _).2.2 _ _ _ _ _ _ _ hfr' c2).trans hpre
+      obtain ⟨W1, s1, hw1, r1⟩ := ih _ _ _ _ _ _ _ _ hfx hcx c1' hpre1 σ v σ1 he1 W s hc.left rfl hi her hw
       have her1 : EnvRep ops W1 s1.heap c s1.ep ρ := by rw [r1.ep]; exact her.ext r1.ext hw1
       have hc2 : CodeAt2 D c.envmap s1.heap σ1.store s1.ipL (s.ipO + code1.length) code2 := r1.codeAfter hc.right
-      obtain ⟨W2, s2, hw2, r2⟩ := ihes _ _ _ _ _ _ _ ρ false hfr hcx c2 hpre hpl'
-        (fun e he => hnd e (List.mem_cons_of_mem _ he)) σ1 w σ' he2 W1 s1 hc2 r1.ipO r1.inv her1 r1.swf
-      exact ⟨W2, s2, World.le_trans hw1 hw2, by
-        have := r1.append r2
-        simpa using this⟩
+      have hfr1 : FrameAt s1.stack s1.bp fr := by rw [r1.bp]; exact hfr.of_liveEq r1.stack
+      obtain ⟨W2, s2, hw2, o2⟩ := ihes _ _ _ _ _ _ _ ρ false hfr' hcx c2 hpre hpl'
+        (fun e he => hnd e (List.mem_cons_of_mem _ he)) σ1 w σ' he2 W1 s1 fr hc2 r1.ipO r1.inv her1 r1.swf hfr1
+      rcases o2 with r2 | ⟨ht, q2⟩
+      · exact ⟨W2, s2, World.le_trans hw1 hw2, .inl (by
+          have := r1.append r2
+          simpa using this)⟩
+      · exact ⟨W2, s2, World.le_trans hw1 hw2, .inr ⟨ht, Ret2.prepend r1.steps r1.ext q2⟩⟩
 
 /-! ## the call of a closure -/
 
-theorem ctxOK_of_parts {f : Nat} {c : Ctx} {formals body : Datum} {p : LambdaParts} {ps : List Text}
-    {caps : List (Text × Source)}
-    (hp : lambdaParts f c (.pair (.sym k_lambda) (.pair formals body)) false = .ok p) (hps : p.formals = ps)
-    (hem : p.ctx.envmap = argEntries ps ++ caps) : CtxOK p.ctx := by
-  intro x hx
-  rw [(lambdaParts_inv hp).2.1, hps] at hx
-  obtain ⟨i, hi, hxi⟩ := List.getElem_of_mem hx
-  have hg : ps[i]? = some x := by rw [List.getElem?_eq_getElem hi, hxi]
-  have := argEntries_get ps i x hg
-  unfold inEnv
-  rw [hem, List.any_eq_true]
-  exact ⟨(x, .argument i), List.mem_append_left _ (List.mem_of_getElem? this), by simp⟩
-
-theorem callOK2_succ (L : Laws2 D) {n : Nat} (ih : ExprOK2 D n) : CallOK2 D (n + 1) := by
+theorem callOK2_succ (L : Laws2 D) {n : Nat} (ih : ExprOK2 D n) (iht : ExprOKT D n) : CallOK2 D (n + 1) := by
   intro ps body ρc ws σ w σ' hap W s lam cenv vs st0 epc lc oc hcal hclos hi hvs hipL hipO hst hw0 hw
   change applyStep (evalN n) (.closure ps none body ρc) ws σ = _ at hap
   obtain ⟨ρ', σ1, hbind, hbody⟩ := applyStep_closure_inv hap
-  obtain ⟨f, cst, cst1, co, formals, bodyD, p, bcode, caps, a1, a2, a3, a4, a5, a6, a7, a8, a9, a10, a11, a12, a13,
-    a14, a15, a16, a17⟩ := hclos
-  obtain ⟨e1, e2, e3, e4, e5, e6, e7, e8⟩ := bindArgs_inv ps ws ρc ρ' σ σ1 a4 hbind
-  have hvl : vs.length = ps.length := (All2.length_eq hvs).trans e1
-  obtain ⟨hpb, hpa, hpro⟩ := lambdaParts_inv a1
-  have hpro1 : p.prologue = [.op .enter] := by rw [hpro, a3]; rfl
-  -- the loaded code of the lambda
-  obtain ⟨hcode, hinfo⟩ := hi.loaded _ _ a8
-  have hbc : (lamOf p bcode).bc = [.op .enter] ++ bcode ++ [.op .ret] := by simp [lamOf, hpro1]
-  have hargsl : (lamOf p bcode).args.length = ps.length := by simp [lamOf, a2]
-  rw [hbc, ← a10] at hcode
-  rw [hargsl, ← a10] at hinfo
-  have hemL : (lamOf p bcode).envmap = p.ctx.envmap := rfl
-  rw [hemL] at hcode
-  -- the stack `CALL` left
-  obtain ⟨k0, k1, k2, k3, k4⟩ := callFrame_cells st0 vs epc lc oc hw0
-  have hsp : s.stack.sp = st0.sp + vs.length + 3 := by rw [← hst.1, callFrame_sp]
-  have cell : ∀ i, i ≤ st0.sp + vs.length + 3 → s.stack.cells[i]? = (callFrame st0 vs epc lc oc).cells[i]? :=
-    fun i hi' => (hst.2 i (by rw [callFrame_sp]; exact hi')).symm
-  -- ENTER
-  let B := st0.sp + vs.length
-  have hB : s.stack.sp + 1 - 4 = B := by show _ = st0.sp + vs.length; omega
-  let stE := s.stack.push (.basePtr s.bp)
-  have hwE : SWF stE := push_swf _ _
-  have spE : stE.sp = B + 4 := by show (s.stack.push _).sp = _; simp [hsp]; omega
-  have cellE : ∀ i, i ≤ s.stack.sp → stE.cells[i]? = s.stack.cells[i]? := fun i hi' => push_below _ _ hw i hi'
-  have srcGet : ∀ j (hj : j < p.ctx.envmap.length),
-      (p.ctx.envmap.map (rsrc co.envmap))[j]? = some (rsrc co.envmap (p.ctx.envmap[j]'hj)) := by
-    intro j hj
-    rw [List.getElem?_map, List.getElem?_eq_getElem hj]; rfl
-  obtain ⟨h', a, hmk, hfresh, hargs, hcap, hframe, hglob, hext, hsrx⟩ :=
-    L.activation_ok s.heap σ.store lam cenv B stE _ ps.length hi.extra a11 a13 hinfo
-      (by
-        intro j src hj
-        obtain ⟨q, hq, _⟩ := map_get _ _ _ _ hj
-        have hlt : j < p.ctx.envmap.length := by
-          rcases Nat.lt_or_ge j p.ctx.envmap.length with h1 | h1
-          · exact h1
-          · rw [List.getElem?_eq_none h1] at hq; cases hq
-        exact a16 j hlt)
-      (by
-        intro j i hj
-        obtain ⟨q, hq, hr⟩ := map_get _ _ _ _ hj
-        rw [a14] at hq
-        rcases em_entry_cases hq with ⟨hlt, x, _, rfl⟩ | ⟨_, hqc⟩
-        · simp only [rsrc, RSrc.arg.injEq] at hr
-          subst hr
-          have := hwE
-          unfold SWF at this
-          refine ⟨hlt, by show _ ≤ st0.sp + vs.length; omega, ?_⟩
-          show st0.sp + vs.length - (ps.length - j) + 1 < stE.cells.length
-          omega
-        · have := a15 q hqc
-          obtain ⟨x, src⟩ := q
-          simp only at this; subst this
-          simp [rsrc] at hr)
-  have hfetch0 : ops.fetch s.heap s.ipL s.ipO = some (.opcode .enter) := by
-    have := hcode.left.left.op 0 (o := .enter) rfl
-    rw [hipL, hipO]; simpa using this
-  have hargc : s.stack.cells[s.stack.sp - 2]? = some (.argc ps.length) := by
-    rw [show s.stack.sp - 2 = st0.sp + vs.length + 1 by omega, cell _ (by omega), k2, hvl]
-  have hsE := step_enter_closure (s := s) (by rw [hipL]; exact a11) hfetch0 hcal hinfo (by omega) hargc
-    (by rw [hB]; exact hmk)
-  rw [hB] at hsE
-  -- the argument cells
-  have argCell : ∀ i v, vs[i]? = some v → stE.cells[B - (ps.length - i) + 1]? = some v := by
-    intro i v hv
-    have hlt : i < vs.length := by
-      rcases Nat.lt_or_ge i vs.length with h1 | h1
-      · exact h1
-      · rw [List.getElem?_eq_none h1] at hv; cases hv
-    have e0 : B - (ps.length - i) + 1 = st0.sp + 1 + i := by show st0.sp + vs.length - _ + 1 = _; omega
-    rw [e0, cellE _ (by omega), cell _ (by omega), k1 i hlt, hv]
-  have argSlot : ∀ i v, vs[i]? = some v → ops.envGet h' a i = some v := by
-    intro i v hv
-    have hlt : i < ps.length := by
-      rcases Nat.lt_or_ge i vs.length with h1 | h1
-      · omega
-      · rw [List.getElem?_eq_none h1] at hv; cases hv
-    have hx : ps[i]? = some ps[i] := List.getElem?_eq_getElem hlt
-    have hent : p.ctx.envmap[i]? = some (ps[i], .argument i) := by
-      rw [a14, List.getElem?_append_left (by rw [argEntries_length]; exact hlt)]
-      exact argEntries_get ps i _ hx
-    have : (p.ctx.envmap.map (rsrc co.envmap))[i]? = some (.arg i) := by
-      rw [List.getElem?_map, hent]; rfl
-    exact hargs i i v this (argCell i v hv)
-  -- the new world
-  let W' : World := fun e n l => W e n l ∨ (e = a ∧ n < ps.length ∧ l = σ.store.size + n)
-  have hwW : W.le W' := fun e n l h => .inl h
-  have hse : StoreExt σ.store σ1.store := StoreExt.ofPrefix (by omega) e5
-  have hx1 : Ext2 D s.heap σ.store h' σ1.store := hext.trans (Ext2.storeOnly L h' hse)
-  have oldNe : ∀ e n l, W e n l → e ≠ a := by
-    intro e n l hW e0
-    subst e0
-    obtain ⟨v, _, h1, _⟩ := hi.vars _ n l hW
-    rw [hfresh n] at h1; cases h1
-  have oldLt : ∀ e n l, W e n l → l < σ.store.size := by
-    intro e n l hW
-    obtain ⟨_, u, _, _, h3, _⟩ := hi.vars e n l hW
-    rcases Nat.lt_or_ge l σ.store.size with h1 | h1
-    · exact h1
-    · simp [Array.getElem?_eq_none h1] at h3
-  have hvs' : All2 (VR2 D W' h' σ1.store) vs ws := All2.vr2_mono hvs hx1 hwW
-  have hi1 : Inv2 D W' h' σ1 := by
-    refine ⟨fun y u hn hy => ?_, fun y hn hy => ?_, L.srx_store _ _ _ hse hsrx, hi.loaded.ext hx1, ?_, ?_, ?_⟩
-    · rw [hglob]; exact (hi.bound y u hn (e2 ▸ hy)).mono hx1 hwW
-    · rw [hglob]; exact hi.unbound y hn (e2 ▸ hy)
-    · intro e n l l' h1 h2
-      rcases h1 with h1 | ⟨rfl, _, rfl⟩ <;> rcases h2 with h2 | ⟨h2e, _, h2l⟩
-      · exact hi.wfun e n l l' h1 h2
-      · exact absurd h2e (oldNe _ _ _ h1)
-      · exact absurd rfl (oldNe _ _ _ h2)
-      · exact h2l.symm
-    · intro e n e' n' l h1 h2
-      rcases h1 with h1 | ⟨rfl, _, rfl⟩ <;> rcases h2 with h2 | ⟨h2e, _, h2l⟩
-      · exact hi.winj e n e' n' l h1 h2
-      · have := oldLt _ _ _ h1; omega
-      · have := oldLt _ _ _ h2; omega
-      · exact ⟨h2e.symm, by omega⟩
-    · intro e n l hW
-      rcases hW with hW | ⟨rfl, hn, rfl⟩
-      · obtain ⟨v, u, g1, g2, g3, g4⟩ := hi.vars e n l hW
-        exact ⟨v, u, by rw [hframe e n (oldNe _ _ _ hW)]; exact g1, g2, by rw [e5 l (oldLt _ _ _ hW)]; exact g3,
-          g4.mono hx1 hwW⟩
-      · have hlt : n < vs.length := by omega
-        have hv : vs[n]? = some vs[n] := List.getElem?_eq_getElem hlt
-        obtain ⟨u, hu, hr⟩ := All2.get hvs' n _ hv
-        exact ⟨vs[n], u, argSlot n _ hv, VR2.not_envptr L hr, e6 n u hu, hr⟩
-  have her1 : EnvRep ops W' h' p.ctx a ρ' := by
-    intro x j hj
-    rw [a14] at hj
-    rcases slot_cases hj with ⟨hlt, hx⟩ | ⟨hge, hxn, src, hent, hmem⟩
-    · have hltv : j < vs.length := by omega
-      have hv : vs[j]? = some vs[j] := List.getElem?_eq_getElem hltv
-      obtain ⟨u, _, hr⟩ := All2.get hvs' j _ hv
-      exact ⟨a, j, σ.store.size + j, .inr ⟨rfl, rfl, vs[j], argSlot j _ hv, VR2.not_envptr L hr⟩, e7 j x hx,
-        .inr ⟨rfl, hlt, rfl⟩⟩
-    · have hsrc := a15 _ hmem
-      simp only at hsrc
-      subst hsrc
-      rw [← a14] at hent
-      obtain ⟨e, n', l, g1, g2, g3⟩ := a17 j x hge hent
-      have : (p.ctx.envmap.map (rsrc co.envmap))[j]? = some (.iofEnv ((slotIdx co.envmap x).getD 0)) := by
-        rw [List.getElem?_map, hent]; rfl
-      have hslot := hcap j _ this
-      rw [g1] at hslot
-      exact ⟨e, n', l, .inl hslot, by rw [e8 x hxn]; exact g2, .inl g3⟩
-  -- the body
-  have hbound : (fun x => x ∈ ps ∨ bound ρc x) = bound ρ' := by
-    funext x
-    apply propext
-    constructor
-    · intro hx
-      by_cases hm : x ∈ ps
-      · obtain ⟨i, hi', hxi⟩ := List.getElem_of_mem hm
-        have : ps[i]? = some x := by rw [List.getElem?_eq_getElem hi', hxi]
-        simp [bound, e7 i x this]
-      · rcases hx with hx | hx
-        · exact absurd hx hm
-        · show (ρ'.lookup x).isSome = true
-          rw [e8 x hm]; exact hx
-    · intro hx
-      by_cases hm : x ∈ ps
-      · exact .inl hm
-      · right
-        show (ρc.lookup x).isSome = true
-        rw [← e8 x hm]; exact hx
-  rw [hbound] at a12
-  have hcx : CtxOK p.ctx := ctxOK_of_parts a1 a2 a14
+  obtain ⟨f, cst, cst1, p, bodyD, bcode, h', a, W', stE, hsE, hwW, hi1, her1, hcx, a12, a7, a9, a5, a6, hcodeE, hwE, hfrE,
+    hx1⟩ := enter_closure L hbind hcal hclos hi hvs hipL hipO hst hw0 hw
   obtain ⟨b0, bs0, hb0⟩ : ∃ b0 bs0, body = b0 :: bs0 := by
     cases body with
     | nil =>
@@ -340,52 +153,45 @@ theorem callOK2_succ (L : Laws2 D) {n : Nat} (ih : ExprOK2 D n) : CallOK2 D (n +
     | cons b0 bs0 => exact ⟨b0, bs0, rfl⟩
   subst hb0
   rw [evalBody_noDefs (a6 b0 List.mem_cons_self)] at hbody
-  let sE : MSt H := { s with heap := h', ep := a, stack := stE, bp := B, ipO := s.ipO + 1 }
+  let sE : MSt H := { s with heap := h', ep := a, stack := stE, bp := st0.sp + vs.length, ipO := s.ipO + 1 }
   have hcodeB : CodeAt2 D p.ctx.envmap sE.heap σ1.store sE.ipL 1 bcode := by
-    have := (hcode.left.right.ext hx1).cast (show 0 + [BC.op .enter].length = 1 by rfl)
+    have := hcodeE.left.right.cast (show 0 + [BC.op .enter].length = 1 by rfl)
     show CodeAt2 D p.ctx.envmap h' σ1.store s.ipL 1 bcode
     rw [hipL]; exact this
-  obtain ⟨W2, s2, hw2, r2⟩ := body2_ok L ih _ _ _ _ _ _ _ _ ρ' true a12 hcx a7 a9 a5 a6 σ1 w σ' hbody W' sE hcodeB
-    (by show s.ipO + 1 = 1; omega) hi1 her1 hwE
-  -- RET
-  have hcodeR : CodeAt2 D p.ctx.envmap s2.heap σ'.store s2.ipL s2.ipO [.op .ret] := by
-    have h0 := (hcode.right.ext hx1)
-    have h1 : CodeAt2 D p.ctx.envmap sE.heap σ1.store sE.ipL (0 + ([BC.op .enter] ++ bcode).length) [.op .ret] := by
-      show CodeAt2 D p.ctx.envmap h' σ1.store s.ipL _ _
-      rw [hipL]; exact h0
-    refine (r2.codeAfter h1).cast ?_
-    rw [r2.ipO]
-    show _ = s.ipO + 1 + bcode.length
-    simp; omega
-  have cell2 : ∀ i, i ≤ B + 4 → s2.stack.cells[i]? = stE.cells[i]? :=
-    fun i hi' => (r2.stack.2 i (by show i ≤ stE.sp; omega)).symm
-  have hbp2 : s2.bp = B := r2.bp
-  have c1 : s2.stack.cells[s2.bp + 1]? = some (.argc vs.length) := by
-    rw [hbp2, cell2 _ (by omega), cellE _ (by omega), cell _ (by show st0.sp + vs.length + 1 ≤ _; omega)]
-    exact k2
-  have c2 : s2.stack.cells[s2.bp + 2]? = some (.envPtr epc) := by
-    rw [hbp2, cell2 _ (by omega), cellE _ (by omega), cell _ (by show st0.sp + vs.length + 2 ≤ _; omega)]
-    exact k3
-  have c3 : s2.stack.cells[s2.bp + 3]? = some (.instrPtr lc oc) := by
-    rw [hbp2, cell2 _ (by omega), cellE _ (by omega), cell _ (by show st0.sp + vs.length + 3 ≤ _; omega)]
-    exact k4
-  have c4 : s2.stack.cells[s2.bp + 4]? = some (.basePtr s.bp) := by
-    rw [hbp2, cell2 _ (by omega)]
-    have := push_top s.stack (.basePtr s.bp)
-    rw [hsp] at this
-    exact this
-  have hsR := step_ret (s := s2) hcodeR.1 (by have := hcodeR.op 0 (o := .ret) rfl; simpa using this) c1
-    (by rw [hbp2]; show vs.length ≤ st0.sp + vs.length; omega) c2 c3 c4
-  refine ⟨W2, _, World.le_trans hwW hw2, (Steps.cons hsE r2.steps).trans (Steps.one hsR), rfl, rfl, rfl, rfl, ?_, ?_,
-    r2.acc, r2.inv, hx1.trans r2.ext⟩
-  · refine ⟨by show st0.sp = s2.bp - vs.length; rw [hbp2]; show _ = st0.sp + vs.length - vs.length; omega, ?_⟩
-    intro i hi'
-    show st0.cells[i]? = s2.stack.cells[i]?
-    rw [cell2 _ (by omega), cellE _ (by omega), cell _ (by omega), k0 i hi']
-  · show s2.bp - vs.length < s2.stack.cells.length
-    have := r2.swf
-    unfold SWF at this
-    have h2 : s2.stack.sp = stE.sp := r2.stack.1.symm
-    omega
+  obtain ⟨W2, s2, hw2, o2⟩ := body2_ok L ih iht _ _ _ _ _ _ _ _ ρ' true a12 hcx a7 a9 a5 a6 σ1 w σ' hbody W' sE
+    ⟨vs.length, epc, lc, oc, s.bp, st0⟩ hcodeB (by show s.ipO + 1 = 1; omega) hi1 her1 hwE hfrE
+  cases o2 with
+  | inr hq =>
+    -- the body ended in a tail call that has already returned to our caller
+    obtain ⟨_, q2⟩ := hq
+    exact ⟨W2, s2, World.le_trans hwW hw2, .cons hsE q2.steps, q2.ipL, q2.ipO, q2.ep, q2.bp, q2.stack, q2.swf,
+      q2.acc, q2.inv, hx1.trans q2.ext⟩
+  | inl r2 =>
+    -- RET
+    have hcodeR : CodeAt2 D p.ctx.envmap s2.heap σ'.store s2.ipL s2.ipO [.op .ret] := by
+      have h1 : CodeAt2 D p.ctx.envmap sE.heap σ1.store sE.ipL (0 + ([BC.op .enter] ++ bcode).length) [.op .ret] := by
+        show CodeAt2 D p.ctx.envmap h' σ1.store s.ipL _ _
+        rw [hipL]; exact hcodeE.right
+      refine (r2.codeAfter h1).cast ?_
+      rw [r2.ipO]
+      show _ = s.ipO + 1 + bcode.length
+      simp; omega
+    have hfr2 : FrameAt s2.stack s2.bp ⟨vs.length, epc, lc, oc, s.bp, st0⟩ := by
+      rw [r2.bp]; exact hfrE.of_liveEq r2.stack
+    have hbp2 : s2.bp = st0.sp + vs.length := r2.bp
+    have hsR := step_ret (s := s2) hcodeR.1 (by have := hcodeR.op 0 (o := .ret) rfl; simpa using this) hfr2.argc
+      hfr2.le hfr2.ep hfr2.ip hfr2.bpc
+    refine ⟨W2, _, World.le_trans hwW hw2, (Steps.cons hsE r2.steps).trans (Steps.one hsR), rfl, rfl, rfl, rfl, ?_, ?_,
+      r2.acc, r2.inv, hx1.trans r2.ext⟩
+    · refine ⟨by show st0.sp = s2.bp - vs.length; rw [hbp2]; omega, ?_⟩
+      intro i hi'
+      show st0.cells[i]? = s2.stack.cells[i]?
+      exact hfr2.below i hi'
+    · show s2.bp - vs.length < s2.stack.cells.length
+      have := r2.swf
+      unfold SWF at this
+      have h2 : s2.stack.sp = stE.sp := r2.stack.1.symm
+      have h3 := hfrE.live
+      omega
 
 end Marwood.Lemmas.CompileCorrect2
